@@ -189,3 +189,49 @@ package iam
 //@        (pe.WalletOwnerOrganization in pexConsumer.RequiredPresentationDefinitions ==> pexConsumer.RequiredPresentationDefinitions[pe.WalletOwnerOrganization].Id in pexConsumer.Submissions)
 //@     && (pe.WalletOwnerUser in pexConsumer.RequiredPresentationDefinitions ==> pexConsumer.RequiredPresentationDefinitions[pe.WalletOwnerUser].Id in pexConsumer.Submissions)
 //@   ensures [token-only-from-createAccessToken] isNilIface(result.1) ==> did(call (Wrapper).createAccessToken #1) && isNilIface(ret(call (Wrapper).createAccessToken #1).1)
+
+// ---- C02: issuing and introspecting ----
+
+//@ func (Wrapper).accessTokenServerStore
+//@   prop C02
+//@   assume-benign
+//@   ensures !isNilIface(result)
+//@ func crypto.GenerateNonce
+//@   trusted
+//@   benign
+//@ func (*PEXConsumer).credentialMap
+//@   prop C02
+//@   assume-benign
+//@ func resolveInputDescriptorValues
+//@   prop C02
+//@   assume-benign
+
+// The stored token carries exactly what was established: issuer, client, scope, key binding, issue
+// time and a fixed lifetime, the claims resolved from the fulfilled definitions; it is handed out only
+// after it was stored.
+//@ func (Wrapper).createAccessToken
+//@   prop C02
+//@   loop 1 invariant true
+//@   call (storage.SessionStore).Put #1 requires [stored-token-is-what-was-established]
+//@        typeOf(arg(2)) == AccessToken && arg(2).(AccessToken).Issuer == issuerURL && arg(2).(AccessToken).ClientId == clientID && arg(2).(AccessToken).Scope == scope
+//@        && arg(2).(AccessToken).DPoP == dpopToken && same(arg(2).(AccessToken).IssuedAt, issueTime)
+//@        && same(arg(2).(AccessToken).Expiration, ret(call (time.Time).Add #1)) && same(arg(call (time.Time).Add #1, 0), issueTime) && int64(arg(call (time.Time).Add #1, 1)) == int64(accessTokenValidity)
+//@        && arg(1) == arg(2).(AccessToken).Token && arg(1) == ret(call crypto.GenerateNonce #1)
+//@        && isNilIface(ret(call resolveInputDescriptorValues #1).1) && arg(2).(AccessToken).InputDescriptorConstraintIdMap == ret(call resolveInputDescriptorValues #1).0
+//@   ensures [handed-out-only-after-stored] isNilIface(result.1) ==> result.0 != nil && did(call (storage.SessionStore).Put #1) && isNilIface(ret(call (storage.SessionStore).Put #1))
+//@        && result.0.AccessToken == arg(call (storage.SessionStore).Put #1, 1)
+
+// Active only for a token found in this node's store that has not expired; standard members come
+// from the stored token; credential-derived claims never carry the name of a standard member.
+//@ func (Wrapper).introspectAccessToken
+//@   prop C02
+//@   loop 1 unroll 16
+//@   ensures [active-only-if-stored-and-unexpired] result.0 != nil ==> input != "" && isNilIface(ret(call (storage.SessionStore).Get #1))
+//@        && arg(call (storage.SessionStore).Get #1, 1) == input && ret(call (time.Time).Before #1) == false
+//@   ensures [standard-members-from-the-stored-token] result.0 != nil ==> result.0.Active && *result.0.Iss == token.Issuer && *result.0.ClientId == token.ClientId && *result.0.Scope == token.Scope
+//@   ensures [key-binding-iff-token-bound] result.0 != nil ==> ((result.0.Cnf != nil) <==> (token.DPoP != nil))
+//@   ensures [claims-cannot-override-standard-members] result.0 != nil ==>
+//@        !("active" in result.0.AdditionalProperties) && !("iss" in result.0.AdditionalProperties) && !("sub" in result.0.AdditionalProperties)
+//@        && !("exp" in result.0.AdditionalProperties) && !("iat" in result.0.AdditionalProperties) && !("client_id" in result.0.AdditionalProperties)
+//@        && !("scope" in result.0.AdditionalProperties) && !("cnf" in result.0.AdditionalProperties) && !("aud" in result.0.AdditionalProperties)
+//@        && !("vps" in result.0.AdditionalProperties) && !("presentation_definitions" in result.0.AdditionalProperties) && !("presentation_submissions" in result.0.AdditionalProperties)
